@@ -538,7 +538,15 @@ class InMemMap(BaseMap):
             results.append((l2, p2, l3, p3))
         # Edges that are in parallel and close
         if self.linked_edges:
-            for (l3, l4) in self.linked_edges.get(edge, []):
+            linked = self.linked_edges.get(edge, [])
+            if isinstance(linked, (set, frozenset)):
+                # The order of a set of (string) labels differs between processes (hash randomisation) and
+                # the order of the neighbours decides between equally probable paths.
+                try:
+                    linked = sorted(linked)
+                except TypeError:
+                    linked = sorted(linked, key=repr)
+            for (l3, l4) in linked:
                 p3 = self.node_coordinates(l3)
                 p4 = self.node_coordinates(l4)
                 results.append((l3, p3, l4, p4))
